@@ -339,3 +339,21 @@ pub fn close(a: f64, b: f64, tol: f64) -> bool {
 pub fn close_slice(a: &[f64], b: &[f64], tol: f64) -> bool {
     a.len() == b.len() && a.iter().zip(b.iter()).all(|(x, y)| close(*x, *y, tol))
 }
+
+/// Plain OS-thread parallel for-each (an atomic cursor over `items`). Used instead of rayon wherever
+/// the body calls the multi-threaded solvers: a rayon worker that blocks on another pool keeps
+/// stealing jobs of its own pool, which nests solves and deadlocks on any lock the body holds.
+pub fn par_for_each<T: Sync>(items: &[T], threads: usize, body: impl Fn(usize, &T) + Sync) {
+    let next = std::sync::atomic::AtomicUsize::new(0);
+    std::thread::scope(|scope| {
+        for _ in 0..threads.max(1) {
+            scope.spawn(|| loop {
+                let ind = next.fetch_add(1, Ordering::Relaxed);
+                if ind >= items.len() {
+                    break;
+                }
+                body(ind, &items[ind]);
+            });
+        }
+    });
+}
